@@ -156,7 +156,7 @@ def run_e2(res, tier):
                 res.parts["wrapper_routes_lost"] = res.parts.get("wrapper_routes_lost", 0) + 1
             continue
         res.mark_nontrivial("%s|%s|%s|%s" % (pid, h, d, json.dumps(cx, sort_keys=True)))
-        failing = "fail" in cx["storage"]
+        failing = "fail" in cx["storage"] and not fam_basic.is_identity(m)
         want_storage = dict(cx["storage"])
         if m.kind != "query":
             want_storage["touched:" + h] = "1"
@@ -175,6 +175,11 @@ def run_e2(res, tier):
             bad("handler succeeded but dispatch returned error %s" % o.get("err"), "outcome")
             continue
         res.outcome("ok")
+        if fam_basic.is_identity(m):
+            # the handler returns its argument: the payload must be the JSON encoding of that value
+            if o.get("bin") != model.canon_json(tup[0]):
+                bad("query payload `%s` is not the JSON encoding of the returned value %s" % (o.get("bin"), model.canon_json(tup[0])), "query_payload")
+            continue
         if m.kind == "query":
             try:
                 got = json.loads(json.loads(o["bin"])["echo"])
